@@ -36,7 +36,14 @@ def floatOps : FloatOps :=
     rem := fun a c => b (fmod (f a) (f c))
     eq := fun a c => f a == f c
     lt := fun a c => f a < f c
-    le := fun a c => f a ≤ f c }
+    le := fun a c => f a ≤ f c
+    ofInt := fun i => b (Float.ofInt i)
+    truncToInt := fun a =>
+      let x := f a
+      if x.isNaN || x.isInf then none
+      else
+        -- exact: |x| < 2^63 is required by the caller's range check; Float.toInt64 saturates, so test the range first
+        if x.abs < 9223372036854775808.0 then some (x.toInt64.toInt) else none }
 
 /-! ### reading the request -/
 
